@@ -213,9 +213,7 @@ def call_route(route, g, func, sig, binding, das, bw_dummy, rs, pad_before=True)
     if route == "function":
         return apply_as_grid_ufunc(func, *das, axis=axis, grid=g, signature=text, boundary_width=bw, **kw, **extra)
     if route == "method":
-        if not pad_before:
-            return apply_as_grid_ufunc(func, *das, axis=axis, grid=g, signature=text, boundary_width=bw, **kw, **extra)
-        return g.apply_as_grid_ufunc(func, *das, axis=axis, signature=text, boundary_width=bw, **kw)
+        return g.apply_as_grid_ufunc(func, *das, axis=axis, signature=text, boundary_width=bw, **kw, **extra)
     if route == "decorator":
         guf = as_grid_ufunc(signature=text, boundary_width=bw, **kw, **extra)(func)
         return guf(g, *das, axis=axis)
@@ -247,6 +245,11 @@ def call_route(route, g, func, sig, binding, das, bw_dummy, rs, pad_before=True)
             ann[f"a{i}"] = Annotated[np.ndarray, ",".join(f"{n_}:{p}" for n_, p in a)]
         rets = [Annotated[np.ndarray, ", ".join(f"{n_}:{p}" for n_, p in a)] for a in outs]
         ann["return"] = rets[0] if len(rets) == 1 else Tuple[tuple(rets)]
+        if (len(text) + len(das)) % 2:
+            # the same hints written as text (quoted annotations / `from __future__ import annotations`)
+            q = lambda a: 'Annotated[np.ndarray, "%s"]' % ",".join(f"{n_}:{p}" for n_, p in a)
+            ann = {f"a{i}": q(a) for i, a in enumerate(ins)}
+            ann["return"] = q(outs[0]) if len(outs) == 1 else "Tuple[%s]" % ", ".join(q(a) for a in outs)
         h.__annotations__ = ann
         guf = as_grid_ufunc(boundary_width=bw, **kw, **extra)(h)
         return guf(g, *das, axis=axis)
@@ -427,6 +430,12 @@ def run_option(rec, case, seed):
             return ("raise", type(e).__name__)
 
     want = run(lambda: apply_as_grid_ufunc(_diff, da, axis=[("X",)], grid=g, signature="(X:center)->(X:left)", **want_kw))
+    # the Grid method is the same call
+    got_m = run(lambda: g.apply_as_grid_ufunc(_diff, da, axis=[("X",)], signature="(X:center)->(X:left)", **{k: norm(v) for k, v in want_kw.items()}))
+    if got_m != want:
+        rec.violation("options", f"{opt}:grid-method-differs-from-function", case, want[:2] + ((np.frombuffer(want[2]).tolist(),) if want[0] == "ok" else ()),
+                      got_m[:2] + ((np.frombuffer(got_m[2]).tolist(),) if got_m[0] == "ok" else ()))
+        return
     def_kw = {k: norm(v) for k, v in base.items()}
     call_kw = {}
     if d is not None:
